@@ -201,8 +201,17 @@ func unsubCmd(cl rueidis.Client, k string, ch string) rueidis.Completed {
 	return cl.B().Sunsubscribe().Channel(ch).Build()
 }
 
-var voc = psx.NewVocab([]string{"a", "b", "c", "ab", "abc", "zz", "a*", "b*", "ab*", "sync", "sync*", "nosuch", "nosuch*", "",
-	"u1", "u2", "u3", "u4", "u5", "u1*", "u2*", "u3*", "u4*", "u5*", "u101", "u102*", "u103"})
+var voc = func() psx.Vocab {
+	words := []string{"a", "b", "c", "ab", "abc", "zz", "a*", "b*", "ab*", "sync", "sync*", "nosuch", "nosuch*", "",
+		"u1", "u2", "u3", "u4", "u5", "u1*", "u2*", "u3*", "u4*", "u5*", "u101", "u102*", "u103"}
+	for i := 1; i <= 700; i++ {
+		words = append(words, "m"+strconv.Itoa(i))
+	}
+	for i := 1; i <= 120; i++ {
+		words = append(words, "sync:"+strconv.Itoa(i))
+	}
+	return psx.NewVocab(words)
+}()
 
 func errCoq(err error) string {
 	switch psx.ErrClass(err) {
